@@ -80,6 +80,11 @@ thread_local! {
 
 /// what follows the `L <scen> <step> <k>` head of a message:
 /// 0 plain, 1 separators of the collector's in-band framing in the MIDDLE of the text, 2 the END marker
+thread_local! {
+    /// run-wide mode: every step also emits a log outside every span
+    static ROOTLOGS: std::cell::Cell<bool> = const { std::cell::Cell::new(false) };
+}
+
 fn tail(kind: u8, k: usize) -> &'static str {
     match kind {
         0 => "",
@@ -131,6 +136,11 @@ fn step_fn(_: &mut TW, ctx: step::Context) -> LocalBoxFuture<'_, ()> {
         if park_ms > 0 && nth == 1 {
             // parked on a timer: this scenario is in flight but NOT woken by the executor's own polling
             Park::new(park_ms).await;
+        }
+        if ROOTLOGS.with(std::cell::Cell::get) {
+            // a log OUTSIDE every span (explicit root): the collector cannot attribute it and hands it to every ACTIVE
+            // scenario — with a limit of 1 that is this attempt alone; an attempt that ended (retried or not) is not
+            tracing::info!(parent: None, "L 8000 0 0");
         }
         for k in 0..before {
             tracing::info!("L {sc} {st} {k}{}", tail(kind, k));
@@ -210,6 +220,9 @@ pub fn child(seed: u64, mode: &str) {
         // and again within ONE poll of `execute`, before `forward_logs` gets its next turn
         limit = 2;
     }
+    // strictly sequential runs (limit 1): every step also logs outside every span
+    let rootlogs = !directed && limit == 1 && !handoff && !parked_run && rng.chance(2, 3);
+    ROOTLOGS.with(|r| r.set(rootlogs));
     let mut feats = vec![];
     let mut plan = HashMap::new();
     let mut expected: Vec<(usize, usize, usize)> = vec![];
@@ -315,7 +328,8 @@ pub fn child(seed: u64, mode: &str) {
         show_list(&marked, |(s, st)| format!("{s} {st}")),
         show_list(&evs, |e| e.clone()),
     );
-    eprintln!("MODES hooks={with_hooks} burst={burst} outer={outer_span} marker={marker_run} handoff={} parked={parked_run}", HANDOFF.with(|h| h.borrow().is_some()));
+    println!("mon.traced {}", show_list(&evs, |e| e.clone()));
+    eprintln!("MODES hooks={with_hooks} burst={burst} outer={outer_span} marker={marker_run} rootlogs={rootlogs} handoff={} parked={parked_run}", HANDOFF.with(|h| h.borrow().is_some()));
 }
 
 fn id_num(name: &str) -> String {
@@ -347,7 +361,12 @@ pub fn gen_trace(rng: &mut Rng, idx: usize) -> Case {
             let modes = err.lines().find(|l| l.starts_with("MODES ")).map_or(String::new(), |m| {
                 m.split(' ').skip(1).filter(|kv| kv.ends_with("=true")).map(|kv| format!("/{}", kv.trim_end_matches("=true"))).collect()
             });
-            Case { req: l, imp: "ok".into(), class: format!("limit{conc}/logs{}{modes}", match n { 0 => "0", 1..=5 => "few", 6..=99 => "many", _ => "burst" }), nontrivial: n > 0 }
+            // second request: the C02 / C03 clauses on the traced stream (Log events are scenario events too)
+            let (req, imp) = match stdout.lines().find(|l| l.starts_with("mon.traced ")) {
+                Some(t) => (format!("{l}\n{t}"), "ok\nok".to_owned()),
+                None => (l, "ok".to_owned()),
+            };
+            Case { req, imp, class: format!("limit{conc}/logs{}{modes}", match n { 0 => "0", 1..=5 => "few", 6..=99 => "many", _ => "burst" }), nontrivial: n > 0 }
         }
         None => Case {
             req: "harness.ended".into(),
